@@ -148,6 +148,15 @@ def check_getitem(run, f):
                     run.undecided(RULE, f.key, 'slice bounds ' + src(rc, 60), 'hand-computed slice bounds depend on len(self), '
                                   'start sign and step sign; equivalence with list slicing is not decided', f=f, node=r)
                 continue
+            # re-slicing with the NORMALISED bounds: slice(*i.indices(n)) -- for a negative step that runs to the start, indices() gives
+            # stop = -1, which list slicing reads as "the last element": x[::-1] comes back empty
+            resl = [n for n in rng if isinstance(n, ast.Call) and isinstance(n.func, ast.Name) and n.func.id == 'slice' and len(n.args) == 1 and
+                    isinstance(n.args[0], ast.Starred) and matches('%s.indices(__)' % i, n.args[0].value) is not None]
+            if resl:
+                run.violation(RULE, f.key, 'slice ' + src(resl[0], 50), 'the list is sliced again with the bounds NORMALISED by slice.indices(): for a negative step '
+                              'reaching the first element indices() returns stop = -1, which a second slicing reads as "the last element", so x[::-1], '
+                              'x[2::-1] come back empty (the normalised bounds are for range(), not for another slice)', f=f, node=r)
+                continue
             run.error('%s: unrecognised slice branch in %s' % (RULE, f.key))
         elif not_slice or not is_slice:
             n_int += 1
@@ -279,12 +288,10 @@ def check_empty_list_ctor(run, f):
     return n
 
 
-def run_list_rules(run):
+def run_mutator_guards(run):
+    """class-equality and single-value guards of append / insert / __setitem__ (also what keeps a value of another class out of an
+    object: C07)"""
     prog = run.prog
-    check_getitem(run, prog.func('smuserlist:SMUserList.__getitem__'))
-    for k in ('geom3d:Plucker.__getitem__', 'spatialvector:SpatialVector.__getitem__', 'spatialvector:SpatialInertia.__getitem__'):
-        if k in prog.functions:
-            check_getitem(run, prog.functions[k])
     f = prog.func('smuserlist:SMUserList.append')
     check_mutator(run, f, f.params[1], lambda st: _is_super_method_call(st, {'append'}))
     f = prog.func('smuserlist:SMUserList.insert')
@@ -292,6 +299,15 @@ def run_list_rules(run):
     f = prog.func('smuserlist:SMUserList.__setitem__')
     check_mutator(run, f, f.params[2], lambda st: isinstance(st, ast.Assign) and any(
         isinstance(t, ast.Subscript) and isinstance(t.value, ast.Attribute) and t.value.attr == 'data' for t in st.targets))
+
+
+def run_list_rules(run):
+    prog = run.prog
+    check_getitem(run, prog.func('smuserlist:SMUserList.__getitem__'))
+    for k in ('geom3d:Plucker.__getitem__', 'spatialvector:SpatialVector.__getitem__', 'spatialvector:SpatialInertia.__getitem__'):
+        if k in prog.functions:
+            check_getitem(run, prog.functions[k])
+    run_mutator_guards(run)
     f = prog.func('geom3d:Plucker.append')
     check_mutator(run, f, f.params[1], lambda st: _is_super_method_call(st, {'append'}))
     check_extend(run, prog.func('smuserlist:SMUserList.extend'))
